@@ -228,10 +228,32 @@ def _flag_sdrain(client_py: ast.Module) -> bool:
         if len(loops) != 1 or _count(fn, "_read_batch_with_log_check(") != 1:
             raise TranslationBroken(site, "drain loop not found exactly once")
         body = _text(loops[0].body)
-        # the statement that follows the `with contextlib.suppress(...)` block holding the loop
-        holders = [k for k, st in enumerate(fn.body) if isinstance(st, ast.With) and any(n is loops[0] for n in ast.walk(st))]
+        # the top-level statement holding the loop: `with contextlib.suppress(StopIteration, RpcError, pa.ArrowInvalid,
+        # OSError):` or, since the drained-marker fix, `try: <loop> except StopIteration: self._drained = True
+        # except (RpcError, pa.ArrowInvalid, OSError): pass` -- both swallow exactly these classes and fall through
+        # to the statement after the block, so the release loop placed there runs on each of these exit paths.
+        holders = [k for k, st in enumerate(fn.body) if isinstance(st, (ast.With, ast.Try)) and any(n is loops[0] for n in ast.walk(st))]
         if len(holders) != 1:
-            raise TranslationBroken(site, "drain loop is not inside one top-level with-block")
+            raise TranslationBroken(site, "drain loop is not inside one top-level with/try block")
+        hold = fn.body[holders[0]]
+        if isinstance(hold, ast.With):
+            ok_hold = (
+                len(hold.items) == 1
+                and ast.unparse(hold.items[0]) == "contextlib.suppress(StopIteration, RpcError, pa.ArrowInvalid, OSError)"
+                and len(hold.body) == 1
+                and hold.body[0] is loops[0]
+            )
+        else:
+            arms = [(ast.unparse(h.type) if h.type is not None else "", h.name, _text(h.body)) for h in hold.handlers]
+            ok_hold = (
+                len(hold.body) == 1
+                and hold.body[0] is loops[0]
+                and not hold.orelse
+                and not hold.finalbody
+                and arms == [("StopIteration", None, "self._drained = True"), ("(RpcError, pa.ArrowInvalid, OSError)", None, "pass")]
+            )
+        if not ok_hold or loops[0].orelse:
+            raise TranslationBroken(site, "the block around the drain loop has an unknown shape")
         after = ast.unparse(fn.body[holders[0] + 1]) if holders[0] + 1 < len(fn.body) else ""
         if body == _LOOP_OLD and "release" not in ast.unparse(fn):
             out.append(False)
